@@ -96,6 +96,9 @@ def step (st : St) (toks : List String) : St × String :=
   | "fetchs" :: rest => match rest.mapM hexBytes? with
     | some hs => (st, allOk (hs.map (fetchBlock crc32c s)))
     | none => (st, "bad-op")
+  | "headers" :: rest => match rest.mapM hexBytes? with
+    | some hs => (st, allOk (hs.map fun h => fetchRegion s h 0 84))
+    | none => (st, "bad-op")
   | "hass" :: rest => match rest.mapM hexBytes? with
     | some hs => (st, ",".intercalate (hs.map fun h => toString (hasBlock s h)))
     | none => (st, "bad-op")
